@@ -320,6 +320,43 @@ theorem interp_self (xp fp : List K) (hl : xp.length = fp.length) (hp : xp.Pairw
           List.getElem?_eq_getElem (hl' ▸ hk)] at this
         exact this
 
+/-! unit independence of resampling -/
+theorem go_scale (s : K) (hs : 0 < s) (x : K) : ∀ (xs fs : List K) (xa fa : K),
+    interp1.go (ordArith K) (s * x) (s * xa) fa (xs.map (s * ·)) fs = interp1.go (ordArith K) x xa fa xs fs
+  | [], _, _, _ => by simp [interp1.go]
+  | _ :: _, [], _, _ => by simp [interp1.go]
+  | xb :: xs, fb :: fs, xa, fa => by
+    simp only [List.map_cons, interp1.go, ordArith, fieldArith, id]
+    have hlt : (s * x < s * xb) ↔ (x < xb) := mul_lt_mul_iff_right₀ hs
+    have hmap : (xs.map (s * ·) = []) ↔ (xs = []) := by simp
+    by_cases h : x < xb
+    · simp only [h, hlt.2 h, decide_true, if_true]
+      rw [← mul_sub, ← mul_sub, mul_div_assoc, mul_div_mul_left _ _ hs.ne', ← mul_div_assoc]
+    · have h' : ¬ s * x < s * xb := fun hh => h (hlt.1 hh)
+      simp only [h, h', decide_false, Bool.false_eq_true, if_false, hmap]
+      by_cases he : xs = []
+      · simp [he]
+      · simp only [he, if_false]
+        exact go_scale s hs x xs fs xb fb
+
+/-- resampling does not depend on the unit of the axis: nodes and target in another unit give the same value -/
+theorem interp1_scale (s : K) (hs : 0 < s) (xp fp : List K) (x : K) :
+    interp1 (ordArith K) (xp.map (s * ·)) fp (s * x) = interp1 (ordArith K) xp fp x := by
+  cases xp with
+  | nil => rfl
+  | cons x0 xs =>
+    cases fp with
+    | nil => rfl
+    | cons f0 fs =>
+      simp only [List.map_cons, interp1, ordArith, fieldArith]
+      have hlt : (s * x < s * x0) ↔ (x < x0) := mul_lt_mul_iff_right₀ hs
+      have hmap : (xs.map (s * ·) = []) ↔ (xs = []) := by simp
+      simp only [hlt, hmap, decide_eq_true_eq]
+      split
+      · rfl
+      · exact go_scale s hs x xs fs x0 f0
+
+
 end interp
 
 /-! ### left_shift and ndalign -/
